@@ -77,3 +77,34 @@ for _pid, _t in _GEN2_TEXT.items():
             LEVEL[_pid]["note"] += _GEN2_NOTE
         if "regenerated from the Go source" not in LEVEL[_pid]["technique"]:
             LEVEL[_pid]["technique"] += _GEN_TECH
+
+# Third round (work package "gen3"): functions that assign through a pointer parameter - Position.MovePreallocated itself.
+_GEN3_TECH = " + Position.MovePreallocated itself regenerated from tak/move.go on every run and proved equal to the model (Props/C01_gen3.lean: the tie for MovePreallocated is a regenerated definition + bridge theorem, not only sampling)"
+_GEN3_TEXT = {
+    "C01": (" THIRD ROUND (Generated/FuncsApply.lean, bridged in Props/C01_gen3.lean): Position.MovePreallocated ITSELF, Position.analyze and Slides.Iterator are regenerated from the "
+            "source on every run (mutation through `next *Position` kept as state, the `stones *byte` alias resolved statically per path, fallthrough, `return nil, Err` = .error (), "
+            "Go's panics = none; alloc / copyPosition abstracted as the declared copy `next is a copy of p`, the storage itself being C09's subject). movePreallocated_is_source: for EVERY "
+            "position of a board of size <= 8 whose Height / Stacks cover the board (well-formed or not), EVERY raw move value (any coordinates, any type byte, any 32-bit slide word), both "
+            "values of `next == nil` and any basis table covering the board, the regenerated function returns exactly what the hand-written model Pos.apply returns - same error / panic class "
+            "or the same successor field for field (incl. the hash field and the group lists). Hence gen_move_total and gen_move_refines: C01's theorems (never panics, succeeds iff legal, "
+            "exact successor, well-formedness preserved) are theorems about the function gen reads out of tak/move.go. The fn.apply / fn.analyze ops (generator FNAPPLY) run the real "
+            "MovePreallocated (into nil, into Alloc(size), into a dirty position) against the regenerated definition on raw positions (a quarter malformed) and every raw move class of "
+            "C01's generator, comparing the successor field for field."),
+    "C03": (" THIRD ROUND (Props/C03_gen3.lean): gen_allMoves_complete_gen_engine - every non-pass raw move the REGENERATED MovePreallocated accepts is Equal to an entry of the slice the "
+            "REGENERATED AllMoves returns (both sides of the completeness claim are functions read out of tak/move.go; bridges C03_gen.allMoves_is_source and C01_gen3.movePreallocated_is_source). "
+            "FNAPPLY runs with C03 as well."),
+    "C08": (" THIRD ROUND (Props/C08_gen3.lean): gen_hash_inv - the incremental-hash theorem stated for the REGENERATED MovePreallocated: from a position satisfying HInv whose slices cover the board, "
+            "whatever move value the regenerated function accepts, the hash field it returns is the from-scratch fold over the Height / Stacks it returns (the three `next.hash ^= next.hashAt(i)` "
+            "brackets are read from the source, not mirrored by hand). FNAPPLY (successor incl. the hash field, field for field) runs with C08 as well."),
+}
+_GEN3_NOTE = (" Third-round conventions of the translator: the pointee of a pointer parameter is state (one Lean variable per assignable field, the function returns the tuple of them); "
+              "a field that is not an input is tracked and may not be read before it is assigned or copied; `alloc` / `copyPosition` are DECLARED to mean `next becomes a copy of p` (storage: C09); "
+              "`(T, error)` is Except Unit T (error texts not modelled; only statically non-nil errors accepted); pointer aliases are resolved statically or rejected; uint is Nat - in "
+              "MovePreallocated every uint subtraction is guarded by the code's own checks (ct >= c >= 1), which the bridge proof goes through.")
+for _pid, _t in _GEN3_TEXT.items():
+    if _pid in LEVEL:
+        LEVEL[_pid]["text"] += _t
+        if "Third-round conventions" not in LEVEL[_pid]["note"]:
+            LEVEL[_pid]["note"] += _GEN3_NOTE
+        if "MovePreallocated itself regenerated" not in LEVEL[_pid]["technique"]:
+            LEVEL[_pid]["technique"] += _GEN3_TECH
